@@ -397,6 +397,18 @@ def names_tie(ctx):
                     ctx.violation("indices-do-not-match-names", f"get_feature_names(which_type={wt}, names={names}, "
                                   f"ret_indices=True): indices {list(idx)} do not correspond to {rr}",
                                   {"input": {"which_type": wt, "names": names}})
+                # the returned list belongs to the caller: editing it must not change what the next caller gets
+                keep = list(r)
+                r.reverse()
+                r.append("feat_edited_by_caller")
+                again = IndentationFeatures.get_feature_names(which_type=wt, names=names)
+                if list(again) != keep:
+                    ctx.violation("names-follow-caller-edit", f"get_feature_names(which_type={wt}, names={names}) "
+                                  f"returns {list(again)} after the caller edited the list returned by the previous "
+                                  f"call in place (first call: {keep})",
+                                  {"input": {"which_type": wt, "names": names, "edit": "reverse + append"}})
+                    del again[:]
+                    again.extend(keep)
     out = ctx.driver("C17", lines)
     if out is not None:
         for (case, got), o in zip(expect, out):
